@@ -233,7 +233,10 @@ def simp1(t):
             return C(eq if op in ('Eq', 'Is') else not eq)
         if op in ('Eq', 'NotEq', 'Is', 'IsNot') and (a == NONE or b == NONE):
             other = b if a == NONE else a
-            if other[0] in ('tuple', 'list', 'dict', 'obj', 'lpvar', 'lpproblem', 'fstr', 'comp', 'cat', 'lambda', 'dictcomp', 'accum', 'upd'):
+            if other[0] in ('tuple', 'list', 'dict', 'obj', 'lpvar', 'lpproblem', 'fstr', 'comp', 'cat', 'lambda', 'dictcomp', 'accum', 'upd', 'sum', 'closure') \
+                    or (other[0] == 'call' and other[1] in (S('lpSum'), S('LpAffineExpression'), S('list'), S('tuple'), S('dict'), S('set'), S('sorted'), S('str'), S('len'), S('range'))) \
+                    or (other[0] == 'const' and other[1] is not None) \
+                    or (other[0] == 'bin' and other[1] in ('Add', 'Sub', 'Mult')):
                 return C(op in ('NotEq', 'IsNot'))          # a constructed value is never None
         if op in ('Eq', 'Is') and a == b and a[0] != 'top':
             return None  # syntactically equal symbolic terms: leave (could be NaN-like); rules decide
